@@ -55,7 +55,18 @@ func archModel(name string) (tr Triple3, parts int) {
 		}
 		return Triple3{"gnu", "linux", name}, 1
 	case 2:
-		return Triple3{"any", p[0], p[1]}, 2
+		// OS-CPU: a wildcard when a component is "any" (the ABI is then
+		// unconstrained as well); otherwise the concrete architecture of that OS
+		// with the OS's default ABI - gnu for linux (linux-amd64 is amd64), and a
+		// placeholder "?OS" elsewhere, because which ABI is the default there is
+		// a table lookup the statement does not fix.
+		if p[0] == "any" || p[1] == "any" {
+			return Triple3{"any", p[0], p[1]}, 2
+		}
+		if p[0] == "linux" {
+			return Triple3{"gnu", p[0], p[1]}, 2
+		}
+		return Triple3{"?" + p[0], p[0], p[1]}, 2
 	default:
 		return Triple3{p[0], p[1], p[2]}, 3
 	}
@@ -195,7 +206,7 @@ const (
 	gBeforePipe
 	gAfterPipe
 	gNameParen  // between name[:qual] and "(" - optional
-	gClauseSep  // before "[" / "<", or before "(" after another clause - mandatory
+	gClauseSep  // before "[" / "<", or before "(" after another clause - customary, but dpkg needs none
 	gInOpen     // after ( [ <
 	gInClose    // before ) ] >
 	gOpVer      // between operator and version - optional
@@ -204,7 +215,7 @@ const (
 	numGapKinds // sentinel
 )
 
-func (g gapKind) mandatory() bool { return g == gClauseSep || g == gItemSep }
+func (g gapKind) mandatory() bool { return g == gItemSep }
 
 // Spacer decides the whitespace at each gap.
 type Spacer interface{ gap(k gapKind) string }
@@ -215,6 +226,8 @@ type fixedSpacer struct {
 	fold string // used after comma / around pipe if non-empty
 	lead string
 	tail string
+	// tight: no blank before "[" and "<" either (foo[amd64]<stage1>)
+	tight bool
 }
 
 func (f fixedSpacer) gap(k gapKind) string {
@@ -240,6 +253,11 @@ func (f fixedSpacer) gap(k gapKind) string {
 		return f.opt
 	case gAfterBang:
 		return ""
+	case gClauseSep:
+		if f.tight {
+			return ""
+		}
+		return f.man
 	}
 	if k.mandatory() {
 		return f.man
@@ -259,6 +277,7 @@ var fixedSchemes = map[string]fixedSpacer{
 	"S7-nl-indent":  {opt: "\n  ", man: "\n  ", tail: "\n"},
 	"S8-crlf":       {opt: "\r\n ", man: "\r\n ", tail: "\r\n"},
 	"S9-inner-only": {opt: "", man: " ", fold: "", tail: "\n"},
+	"S10-tight":     {opt: "", man: " ", tight: true},
 }
 
 type rapidSpacer struct {
